@@ -32,7 +32,11 @@ SPECS['C03'] = {'runs': parse_runs('C03', ['C03'], 6, 7, 4, 5, 6, 7, extra=[
         R('parseMID', 'h_parse.c', ['P_C03', 'P_C02', 'MID', 'NMAX=5'], 'range of length 0..5 in the middle of a buffer with 2 symbolic characters on each side', ['accepted'], 600),
         R('parseFAIL', 'h_parse.c', ['P_C03', 'FAILING', 'NMAX=5'], 'every subset of failing allocations, texts of length 0..5', ['alloc-failure-injected'], 600)]),
     'assumptions': COMMON_ASSUME, 'bounds': {'quick': 'N<=6 / W N<=4 / M<=6; mid-buffer and failure injection N<=5', 'thorough': 'N<=7 / W 5 / M<=7'}, 'outside': 'longer texts'}
+HOSTS_RUN = lambda P, b: R('parse-hosts', 'h_parse.c', ['P_' + p for p in P] + ['GENTEXT=(G_SCHEME_OPT|G_AUTH_REQ|G_USERINFO|G_PORT|G_HOSTKINDS|G_EMPTYHOST)', 'GENK=1', 'GENL=1'], '[scheme] // [userinfo@] host [:port] [/seg]: every host kind incl. IPv4 with 1..3 digit octets and full-form IPv6, characters over [a-z] / digits', ['host-ip4', 'host-ip6', 'host-ipfuture', 'host-regname'], b)
+GENTEXT_RUN = lambda P, b: R('parse-shapes', 'h_parse.c', ['P_' + p for p in P] + ['GEN_WIDE_CHARS', 'GENTEXT=(G_SCHEME_OPT|G_AUTH|G_USERINFO|G_PORT|G_EMPTYHOST|G_QUERY|G_FRAG|G_PCT)', 'GENK=1', 'GENL=1'], 'shape-bounded texts with every optional component, every character over its full RFC 3986 class, one percent triplet (up to ~14 characters)', ['accepted', 'host-regname', 'has-scheme'], b)
 SPECS['C04'] = {'runs': parse_runs('C04', ['C04'], 5, 6, 3, 4, 5, 6, ip6=True), 'assumptions': COMMON_ASSUME, 'bounds': {'quick': 'N<=5, W N<=3, M<=5', 'thorough': 'N<=6, W 4, M<=6'}, 'outside': 'longer texts'}
+for _p in ('C01', 'C02', 'C04'):
+    SPECS[_p]['runs']['quick'].append(HOSTS_RUN([_p], 600)); SPECS[_p]['runs']['thorough'].append(HOSTS_RUN([_p], 1200)); SPECS[_p]['runs']['thorough'].append(GENTEXT_RUN([_p], 3000))
 SPECS['C05'] = {'runs': parse_runs('C05', ['C05'], 4, 5, 3, 4, 4, 5), 'assumptions': COMMON_ASSUME + ['maxChars: one unconstrained symbolic 32-bit int per URI; charsWritten NULL or not is a symbolic choice'],
     'bounds': {'quick': 'parsed URIs N<=4 (W 3, M<=4) x every int maxChars', 'thorough': 'N<=5 (W 4, M 5)'}, 'outside': 'ranges >= 2^31 characters'}
 
@@ -79,7 +83,8 @@ def norm_runs(P, tier, full=True):
 SPECS['C08'] = {'runs': {'quick': norm_runs(['C08'], 'quick'), 'thorough': norm_runs(['C08'], 'thorough')},
     'assumptions': COMMON_ASSUME + ['oracle N: RFC 3986 6.2.2 normal form on strings (oracle/oracle_norm.h); where plain dot removal would need a guard prefix (classes ON_CLS_*) C08 pins no text and C07/C09 apply'],
     'bounds': {'quick': 'see runs: <=3 segments of <=2 chars; one percent triplet; masks {0, single bits, all, required}', 'thorough': 'plus all 64 masks on small shapes, triplets in every component'}, 'outside': 'longer inputs; several triplets at once'}
-SPECS['C09'] = {'runs': {'quick': [R('normres', 'h_normres.c', ['KB=2', 'KR=2', 'SEGL=2', 'GEN_PATH_COLON'], 'base "x:" [//host] <=2 segments; reference [scheme] [//host] <=2 segments, <=2 chars over [a-z.:]', ['ref-absolute', 'ref-network-path', 'ref-absolute-path', 'ref-relative-path'], 600)] + norm_runs(['C09'], 'quick', full=False),
+NORM_REL4 = ['KN=4', 'SEGL=2', 'NFLAGS=0', 'MASKS=8']
+SPECS['C09'] = {'runs': {'quick': [R('normres-rel4', 'h_normres.c', ['KB=1', 'KR=4', 'SEGL=2', 'BFLAGS=(G_SCHEME_REQ|G_AUTH_REQ)', 'RFLAGS=0'], 'base x://h[/s], reference = relative or absolute path of <=4 segments of <=2 chars over [a-z.]', ['ref-relative-path', 'ref-absolute-path'], 900), R('norm-rel4', 'h_norm.c', ['P_C09'] + NORM_REL4, 'path-only references of <=4 segments of <=2 chars over [a-z.], PATH mask', ['relative-path-ref'], 900), R('normres', 'h_normres.c', ['KB=2', 'KR=2', 'SEGL=2', 'GEN_PATH_COLON'], 'base "x:" [//host] <=2 segments; reference [scheme] [//host] <=2 segments, <=2 chars over [a-z.:]', ['ref-absolute', 'ref-network-path', 'ref-absolute-path', 'ref-relative-path'], 600)] + norm_runs(['C09'], 'quick', full=False),
                          'thorough': [R('normres', 'h_normres.c', ['KB=2', 'KR=3', 'SEGL=2', 'GEN_PATH_COLON'], 'as quick with references of <=3 segments', ['ref-relative-path'], 2400)] + norm_runs(['C09'], 'thorough', full=False)},
     'assumptions': COMMON_ASSUME + ['references contain no percent-encoding (so no percent-encoded dot segment), as the property states'],
     'bounds': {'quick': 'base<=2, reference<=2 segments of <=2 chars', 'thorough': 'reference<=3 segments'}, 'outside': 'longer paths'}
@@ -156,6 +161,7 @@ FAILCOV = ['alloc-failure-injected']
 SPECS['C14'] = {'runs': {
     'quick': [R('parse', 'h_parse.c', ['FAILING', 'NMAX=5'], 'every subset of failing allocations during parse, texts 0..5', FAILCOV, 600),
               R('resolve', 'h_resolve.c', ['FAILING', 'KB=2', 'KR=2', 'SEGL=2'] + RES_PATH, 'every subset of failing allocations during resolve; <=2 x <=2 segments of <=2 chars over [a-z.]', FAILCOV, 600),
+              R('resolve-k3', 'h_resolve.c', ['FAILING', 'KB=1', 'KR=3', 'SEGL=1'] + RES_PATH, 'every subset of failing allocations during resolve; references of <=3 one-character segments', FAILCOV, 600),
               R('resolve-hosts', 'h_resolve.c', ['FAILING', 'KB=1', 'KR=1', 'SEGL=1', 'BFLAGS=(G_SCHEME_REQ|G_AUTH|G_HOSTKINDS)', 'RFLAGS=(G_AUTH|G_HOSTKINDS)'], 'every subset of failing allocations during resolve; all host kinds on both sides, <=1 segment', FAILCOV, 600),
               R('shorten', 'h_shorten.c', ['FAILING', 'KS=2', 'KB=2', 'SEGL=1', 'SFLAGS=(G_SCHEME_REQ|G_AUTH|G_HOSTKINDS)', 'BFLAGS=(G_SCHEME_REQ|G_AUTH)'], 'every subset of failing allocations during reference creation', FAILCOV, 600),
               R('normalize', 'h_norm.c', ['FAILING', 'KN=2', 'SEGL=1', 'NFLAGS=(G_SCHEME_OPT|G_AUTH|G_QUERY|G_PCT)', 'MASKS=8,63'], 'every subset of failing allocations during normalisation (PATH and all), borrowed and owned', FAILCOV + ['alloc-failure-borrowed'], 900),
